@@ -459,7 +459,7 @@ def install(reg):
             # sorted(list) keeps duplicates; the set-based model applies to duplicate-free lists only
             a, b = z3.Int(fresh_name("a")), z3.Int(fresh_name("b"))
             eng.oblige(st, f"sorted.argument_has_no_duplicates@{node.lineno}", z3.ForAll([a, b], z3.Implies(
-                z3.And(0 <= a, a < b, b < LNm.len(v.t)), LNm.at(v.t)[a] != LNm.at(v.t)[b])), node.lineno, kind="safety")
+                z3.And(0 <= a, a < b, b < LNm.len(v.t)), LNm.at(v.t)[a] != LNm.at(v.t)[b])), node.lineno, kind="model")
             return Val(LNm, SortedNames(name_set(v.t)))
         if isinstance(v.ty, TSet) and v.ty.elem == TName:
             return Val(LNm, SortedNames(v.t))
